@@ -45,6 +45,14 @@ CHECKS = {
    technique='property-based testing of chains with freeze passes at generated points: query battery before/after/restart against the reference model, what-moved invariants over raw rows, and enumerated crash points inside the freeze pass (commit hook + freezer fail-points) in child processes',
    text='Chains of several short epochs with forks at heights that become frozen are imported into a node with the freezer; synchronous freeze passes run at generated points (twice in a row, right after a reorg); every main-chain block is queried through every getter (block, packed block, header, body, tx hashes, cellbase, uncles, proposals, extension, transactions with location, ancestors, cells, the data-loader view scripts see) before, between and after passes and after a restart and compared with the model; raw rows are diffed to check what moved; freeze passes are re-run in child processes with an abort at every commit / file-append point and the directory must reopen with no main-chain block lost.',
    note='Readers concurrent with a pass and reorgs through frozen heights are not generated; MAX_FREEZE_LIMIT is never binding at these sizes.'),
+ 'C11': dict(level='exploration', ref='DESIGN.md §2 C11',
+   technique='stateful property-based testing on a real node with a tiny pool: generated histories of submissions, directed RBF replacements, removals, expiry, evictions, blocks and reorgs; after every operation a read-only dump of the pool (hook) is checked clause by clause by recomputation (conflict freedom, links <=> spends/deps, eight aggregates, index keys and orders, counters, ancestor limit, RBF fee rule)',
+   text='A real node with small pool limits (size 2-60 kB, ancestors 3-8, RBF on/off, expiry under a fake clock, three proposal windows, with/without block assembler) is driven by ~40 generated operations (chains, diamonds, shared cell deps, header deps, double spends; RBF at threshold -1/0/+1 over seven replacement shapes; remove_local_tx; clock jumps; blocks proposing/committing subsets and conflicting transactions; reorgs of depth 1-3; plug_entry; clear). After every operation the whole pool is dumped through the verif hook and every clause of the statement is recomputed from the entries alone and compared with what the pool stores and reports.',
+   note='The verify-queue workers are suspended between operations (deterministic replay); cycles vary only through script-group counts and plug_entry. Six root causes in the pool bookkeeping are known findings (tolerated by trigger so the search continues behind them).'),
+ 'C12': dict(level='exploration', ref='DESIGN.md §2 C12',
+   technique='stateful property-based testing on a real node (mine mode and not): generated submissions, extensions and competing branches of every depth up to w_far+2 built by the reference model; after every tip change the pool (dump hook + public API) is judged against the model of the new main chain clause by clause, including completeness of re-admission and stage vs proposal window',
+   text='Generated operation lists submit transactions (fee classes around the pool minimum, header deps, shared cell deps, spends of pooled outputs), extend the tip with blocks proposing/committing generated subsets, and deliver competing branches from 1..w_far+2 blocks below the tip that commit other subsets, conflicting transactions or nothing, optionally while a second thread submits. After every tip change, once the pool reports the new tip: no pooled transaction is committed on the new chain, has a dead/unknown input or dep w.r.t. chain + pool, or depends on a detached header; every transaction committed only on the abandoned branch that is still admissible (resolvable, conflict-free, above the minimum fee) is back; in mine mode each entry stage equals the window position of its id.',
+   note='Pool limits other than the fee rate are never binding (defaults); no uncles; concurrent submission interleavings are sampled. Two genuine defects and three consequences of a C11 root cause are known findings.'),
  'C13': dict(level='exploration', ref='DESIGN.md §2 C13',
    technique='stateful property-based testing on a mine-mode node: templates are sealed and submitted to the same node (must be accepted) and rebuilt bit-for-bit by the reference model from their free fields',
    text='A generated sequence of pool submissions (chains, diamonds), template requests, mined templates, competing side blocks (uncles, reorgs) and clock advances drives a real node with a block assembler; every template on the current tip is converted the way a miner does and (a) submitted to the node\'s own pipeline, (b) rebuilt by the reference model from its timestamp, uncles, proposals, transactions and cellbase witness: the two blocks must be identical, which pins epoch, target, DAO field, reward amount and lock, chain-root extension and all roots; committed transactions must be committable in the window, parents first, conflict free.',
